@@ -59,6 +59,7 @@ def gen_case(rng, max_n):
     t1, t2 = sorted([thr(), thr()])
     return {"method": meth, "n": n, "kind": kind, "matrix": m, "t1": t1, "t2": t2,
             "container": rng.choice(["list", "list", "numpy"]),
+            "taxa_container": rng.choice(["list", "list", "tuple", "str"]),
             "names": rng.choice(["plain", "odd"]), "int_thr": rng.random() < 0.3,
             "entry": rng.choice(["flat_cluster", "flat_upgma"])}
 
@@ -105,12 +106,21 @@ def run_impl(case):
         return clustering.flat_cluster(meth, t, m, *a, **k)
     out = fc(thr(case["t1"]), mk())
     rev = fc(thr(case["t1"]), mk(), revert=True)
-    tx = fc(thr(case["t1"]), mk(), taxa)
+    tc = case.get("taxa_container", "list")     # the names as list, tuple or (one-letter names) string
+    if tc == "str" and n <= 26:
+        taxa = [chr(ord("a") + i) for i in range(n)]
+        taxa_arg = "".join(taxa)
+    elif tc == "tuple":
+        taxa_arg = tuple(taxa)
+    else:
+        taxa_arg = taxa
+    tx = fc(thr(case["t1"]), mk(), taxa_arg)
+    tidx = lambda i: taxa.index(i) if i in taxa else n + 7      # a member that is no given name: no item of the model
     out2 = fc(thr(case["t2"]), mk())
     res = {
         "out": [(int(k), [int(i) for i in v]) for k, v in out.items()],
         "rev": [(int(i), int(k)) for i, k in rev.items()],
-        "taxa": [(int(k), [taxa.index(i) for i in v]) for k, v in tx.items()],
+        "taxa": [(int(k), [tidx(i) for i in v]) for k, v in tx.items()],
         "out2": [(int(k), [int(i) for i in v]) for k, v in out2.items()],
     }
     return res
@@ -192,7 +202,7 @@ def shrink(case):
 
 def classify(case, res):
     return ["method=" + case["method"], "n=%d" % case["n"], "kind=" + case["kind"],
-            "container=" + case.get("container", "list"), "names=" + case.get("names", "plain"),
+            "container=" + case.get("container", "list"), "taxa_container=" + case.get("taxa_container", "list"), "names=" + case.get("names", "plain"),
             "entry=" + (case.get("entry", "flat_cluster") if case["method"] == "upgma" else "flat_cluster"),
             "clusters_t1=%d" % len(res["out"]),
             "thr_is_entry" if any(case["t1"] == x for r in case["matrix"] for x in r) else "thr_not_entry"]
